@@ -188,6 +188,33 @@ func (w *pworld) realOp(f []string, o *proto.Out) string {
 			return "strictly-increasing"
 		}
 		return fmt.Sprintf("not-strictly-increasing ties-or-regressions=%d-of-%d", notAfter, n-1)
+	case "rafter":
+		// RealClock.After(d) must deliver, also for d <= 0 (already due), within a generous real-time bound;
+		// a hang is an answer, not a dead harness
+		ds, ok := proto.KV(f, "d")
+		d, err := strconv.ParseInt(ds, 10, 64)
+		if !ok || err != nil || d < -100000 || d > 50 {
+			return "bad-op"
+		}
+		o.Count("rafter")
+		got := make(chan struct{})
+		go func() {
+			<-clock.NewRealClock().After(time.Duration(d) * time.Millisecond)
+			close(got)
+		}()
+		select {
+		case <-got:
+			return "delivered"
+		case <-time.After(3 * time.Second):
+			return "no-delivery-within-3s"
+		}
+	case "rstep":
+		ms, ok := kvI(f, "win")
+		if !ok || ms < 5 || ms > 1000 || len(f) != 2 {
+			return "bad-op"
+		}
+		o.Count("rstep")
+		return w.realStep(time.Duration(ms) * time.Millisecond)
 	case "rburst":
 		ms, ok := kvI(f, "win")
 		pl, ok2 := proto.KV(f, "prios")
@@ -206,6 +233,68 @@ func (w *pworld) realOp(f []string, o *proto.Out) string {
 		return w.realBurst(time.Duration(ms)*time.Millisecond, prios)
 	}
 	return "bad-op"
+}
+
+// stepClock is the production clock whose wall time steps forward once (NTP correction, resumed
+// VM/container): from its `at`-th reading on, Now() is `by` later.  Timers are the production clock's.
+type stepClock struct {
+	*clock.RealClock
+	mu    sync.Mutex
+	calls int
+	at    int
+	by    time.Duration
+}
+
+func (c *stepClock) Now() time.Time {
+	c.mu.Lock()
+	c.calls++
+	stepped := c.calls >= c.at
+	c.mu.Unlock()
+	t := c.RealClock.Now()
+	if stepped {
+		t = t.Add(c.by)
+	}
+	return t
+}
+func (c *stepClock) Since(t time.Time) time.Duration { return c.Now().Sub(t) }
+func (c *stepClock) Until(t time.Time) time.Duration { return t.Sub(c.Now()) }
+func (c *stepClock) readings() int {
+	c.mu.Lock()
+	defer c.mu.Unlock()
+	return c.calls
+}
+
+// realStep: the wall clock steps forward by one window exactly when the roll-over goroutine of a fresh
+// queue first asks for the time till the window end (so that it is already past: After(d <= 0)); then
+// one request takes the window's slot and a second one is queued.  Its turn comes at the next window end:
+// it must be released by the roll-over goroutine (no other request arrives), not left to its TTL.
+func (w *pworld) realStep(win time.Duration) string {
+	c := &stepClock{RealClock: clock.NewRealClock(), at: 2, by: win}
+	q := queue.NewInMemoryDelayedPriorityQueue(
+		queue.QueueKey{RemedyName: "step", Strategy: queue.Strategy{WindowQuota: 1, WindowSize: win}},
+		c, logging.ContextLogger{Logger: zerolog.Nop()})
+	// reading 1 = constructor's window bookkeeping, reading 2 = the roll-over goroutine's first time-till-window-end
+	waitUntil("roll-over goroutine to read the clock", func() bool { return c.readings() >= 2 })
+	time.Sleep(2 * time.Millisecond)
+	ttl := 100*win + 2*time.Second
+	if ok, _ := q.Enqueue(queue.NewRequest("a", 0, c), ttl, 4); !ok {
+		// the slot of the (stepped) window may already be free again: either way a slot was available
+		return "first-request-refused"
+	}
+	res := make(chan bool, 1)
+	go func() {
+		ok, _ := q.Enqueue(queue.NewRequest("b", 0, c), ttl, 4)
+		res <- ok
+	}()
+	select {
+	case ok := <-res:
+		if ok {
+			return "waiter=released"
+		}
+		return "waiter=expired"
+	case <-time.After(ttl + settleTimeout):
+		return "waiter=stuck"
+	}
 }
 
 func (w *pworld) realBurst(win time.Duration, prios []int) string {
